@@ -152,6 +152,85 @@ def test_forms_of(fn: ast.FunctionDef) -> Dict[str, str]:
 
 
 # ----------------------------------------------------------------------------------------------- fresh constants
+def inline_fresh_structs(tree: ast.Module, ref_mod: dict) -> None:
+    """NAME = struct.Struct(<literal format>) at module or class level, unknown to the reference: NAME.pack(...) ->
+    struct.pack(fmt, ...), likewise unpack/unpack_from/pack_into/iter_unpack, NAME.size -> struct.calcsize(fmt)."""
+    known = set(ref_mod.get("consts", []))
+    known_cls = ref_mod.get("class_consts", {})
+    fresh = {}
+    containers = [(tree, known, None)] + [(c, set(known_cls.get(c.name, [])), c.name) for c in tree.body if isinstance(c, ast.ClassDef)]
+    for owner, kn, cname in containers:
+        for st in owner.body:
+            tgt = val = None
+            if isinstance(st, ast.Assign) and len(st.targets) == 1 and isinstance(st.targets[0], ast.Name):
+                tgt, val = st.targets[0].id, st.value
+            elif isinstance(st, ast.AnnAssign) and isinstance(st.target, ast.Name) and st.value is not None:
+                tgt, val = st.target.id, st.value
+            if tgt and tgt not in kn and isinstance(val, ast.Call) and _u(val.func) in ("struct.Struct", "Struct") and len(val.args) == 1 and not val.keywords \
+                    and isinstance(val.args[0], ast.Constant) and isinstance(val.args[0].value, str):
+                fresh[(cname, tgt)] = (val.args[0], st, owner)
+    if not fresh:
+        return
+    names = {}
+    for (cname, tgt), v in fresh.items():
+        names.setdefault(tgt, []).append((cname, v))
+    # only names whose every use is NAME.<method>(...) / NAME.size / NAME.format can go
+    removable = set(fresh)
+
+    class _R(ast.NodeTransformer):
+        def __init__(self):
+            self.cls = None
+
+        def visit_ClassDef(self, node):
+            prev, self.cls = self.cls, node.name
+            self.generic_visit(node)
+            self.cls = prev
+            return node
+
+        def _which(self, base):
+            if isinstance(base, ast.Name) and (None, base.id) in fresh:
+                return (None, base.id)
+            if isinstance(base, ast.Attribute) and isinstance(base.value, ast.Name):
+                if base.value.id == "self" and (self.cls, base.attr) in fresh:
+                    return (self.cls, base.attr)
+                if (base.value.id, base.attr) in fresh:
+                    return (base.value.id, base.attr)
+            return None
+
+        def visit_Call(self, node):
+            f = node.func
+            if isinstance(f, ast.Attribute) and f.attr in ("pack", "unpack", "unpack_from", "pack_into", "iter_unpack"):
+                k = self._which(f.value)
+                if k is not None:
+                    node.args = [self.visit(a) for a in node.args]
+                    node.keywords = [ast.keyword(arg=kw.arg, value=self.visit(kw.value)) for kw in node.keywords]
+                    new = ast.Call(func=ast.Attribute(value=ast.Name(id="struct", ctx=ast.Load()), attr=f.attr, ctx=ast.Load()),
+                                   args=[copy.deepcopy(fresh[k][0])] + node.args, keywords=node.keywords)
+                    return ast.copy_location(new, node)
+            return self.generic_visit(node)
+
+        def visit_Attribute(self, node):
+            if isinstance(node.ctx, ast.Load) and node.attr in ("size", "format"):
+                k = self._which(node.value)
+                if k is not None:
+                    if node.attr == "format":
+                        return ast.copy_location(copy.deepcopy(fresh[k][0]), node)
+                    return ast.copy_location(ast.Call(func=ast.Attribute(value=ast.Name(id="struct", ctx=ast.Load()), attr="calcsize", ctx=ast.Load()),
+                                                      args=[copy.deepcopy(fresh[k][0])], keywords=[]), node)
+            return self.generic_visit(node)
+    has_struct = any(isinstance(n, ast.Import) and any(a.name == "struct" and a.asname is None for a in n.names) for n in tree.body) \
+        or any(isinstance(n, ast.Attribute) and isinstance(n.value, ast.Name) and n.value.id == "struct" for n in ast.walk(tree))
+    if not has_struct:
+        return
+    _R().visit(tree)
+    # definitions that are no longer referenced disappear
+    for (cname, tgt), (_fmt, st, owner) in fresh.items():
+        still = any((isinstance(x, ast.Name) and x.id == tgt and isinstance(x.ctx, ast.Load)) or (isinstance(x, ast.Attribute) and x.attr == tgt and isinstance(x.ctx, ast.Load)) for x in ast.walk(tree))
+        if not still:
+            owner.body = [x for x in owner.body if x is not st] or [ast.Pass()]
+    ast.fix_missing_locations(tree)
+
+
 def inline_fresh_constants(tree: ast.Module, ref_mod: dict) -> None:
     known = set(ref_mod.get("consts", []))
     known_cls = ref_mod.get("class_consts", {})
@@ -635,3 +714,416 @@ def normalise_control_flow(fn: ast.FunctionDef, ref_tests: List[str], ref_forms:
         if not changed:
             break
     ast.fix_missing_locations(fn)
+
+
+# ----------------------------------------------------------------------------------------------- renamed private members
+def stored_attrs(c: ast.ClassDef) -> List[str]:
+    out = set()
+    for m in [n for n in c.body if isinstance(n, ast.FunctionDef)]:
+        for x in ast.walk(m):
+            if isinstance(x, ast.Attribute) and isinstance(x.ctx, ast.Store) and isinstance(x.value, ast.Name) and x.value.id == "self":
+                out.add(x.attr)
+    return sorted(out)
+
+
+def init_attr_order(c: ast.ClassDef) -> List[str]:
+    out = []
+    for m in [n for n in c.body if isinstance(n, ast.FunctionDef) and n.name == "__init__"]:
+        for st in ast.walk(m):
+            if isinstance(st, (ast.Assign, ast.AnnAssign)):
+                for t in (st.targets if isinstance(st, ast.Assign) else [st.target]):
+                    if isinstance(t, ast.Attribute) and isinstance(t.value, ast.Name) and t.value.id == "self" and t.attr not in out:
+                        out.append(t.attr)
+    return out
+
+
+def rename_fresh_members(tree: ast.Module, ref_mod: dict) -> None:
+    """A private attribute or method that was renamed consistently (the reference name no longer occurs, a name the
+    reference does not know takes its place) gets the reference name back.  Pure alpha-renaming of members; refused
+    unless the pairing is unambiguous."""
+    import difflib
+    ref_attrs = ref_mod.get("class_attrs", {})
+    ref_order = ref_mod.get("init_attr_order", {})
+    ref_funcs = set(ref_mod.get("funcs", {}))
+    all_ref_attr_names = {a for v in ref_attrs.values() for a in v}
+    all_attr_uses = {}
+    for x in ast.walk(tree):
+        if isinstance(x, ast.Attribute):
+            all_attr_uses.setdefault(x.attr, []).append(x)
+    mapping = {}
+    for c in [n for n in tree.body if isinstance(n, ast.ClassDef)]:
+        if c.name not in ref_attrs:
+            continue
+        cur = set(stored_attrs(c))
+        ref = set(ref_attrs[c.name])
+        missing = sorted(a for a in ref - cur if a not in all_attr_uses)          # gone from the whole module
+        fresh = sorted(a for a in cur - ref if a not in all_ref_attr_names and a.startswith("_"))
+        if missing and fresh:
+            pairs = {}
+            if len(missing) == 1 and len(fresh) == 1:
+                pairs[fresh[0]] = missing[0]
+            else:
+                a_, b_ = ref_order.get(c.name, []), init_attr_order(c)
+                for tag, i1, i2, j1, j2 in difflib.SequenceMatcher(None, a_, b_, autojunk=False).get_opcodes():
+                    if tag == "replace" and i2 - i1 == j2 - j1:
+                        for x, y in zip(a_[i1:i2], b_[j1:j2]):
+                            if x in missing and y in fresh:
+                                pairs[y] = x
+            for f_, m_ in pairs.items():
+                if mapping.get(f_, m_) != m_:
+                    return
+                mapping[f_] = m_
+        # methods
+        cur_m = {n.name for n in c.body if isinstance(n, ast.FunctionDef)}
+        ref_m = {q.split(".", 1)[1] for q in ref_funcs if q.startswith(c.name + ".") and q.count(".") == 1}
+        defined_elsewhere = {n.name for k in tree.body if isinstance(k, ast.ClassDef) and k is not c for n in k.body if isinstance(n, ast.FunctionDef)}
+        miss_m = sorted(m for m in ref_m - cur_m if m not in all_attr_uses and m not in defined_elsewhere and not (m.startswith("__") and m.endswith("__")))
+        fresh_m = sorted(m for m in cur_m - ref_m if m.startswith("_") and m not in defined_elsewhere and not (m.startswith("__") and m.endswith("__")))
+        if len(miss_m) == 1 and len(fresh_m) == 1:
+            if mapping.get(fresh_m[0], miss_m[0]) != miss_m[0]:
+                return
+            mapping[fresh_m[0]] = miss_m[0]
+    # module-level private functions
+    cur_f = {n.name for n in tree.body if isinstance(n, ast.FunctionDef)}
+    ref_f = {q for q in ref_funcs if "." not in q}
+    name_uses = {x.id for x in ast.walk(tree) if isinstance(x, ast.Name)}
+    miss_f = sorted(f for f in ref_f - cur_f if f not in name_uses)
+    fresh_f = sorted(f for f in cur_f - ref_f if f.startswith("_"))
+    fmap = {}
+    if len(miss_f) == 1 and len(fresh_f) == 1:
+        fmap[fresh_f[0]] = miss_f[0]
+    elif miss_f and len(miss_f) == len(fresh_f):
+        # pair by parameter list and test keys (both survive a rename of the function itself)
+        sig = {f: (tuple(ref_mod["funcs"][f].get("params", [])), tuple(sorted(ref_mod["funcs"][f].get("tests", [])))) for f in miss_f}
+        cur_sig = {}
+        for n in tree.body:
+            if isinstance(n, ast.FunctionDef) and n.name in fresh_f:
+                cur_sig[n.name] = (tuple(x.arg for x in n.args.posonlyargs + n.args.args + n.args.kwonlyargs), tuple(sorted(test_keys_of(n))))
+        for f_, sg in cur_sig.items():
+            cands = [m for m, s_ in sig.items() if s_ == sg]
+            if len(cands) == 1 and cands[0] not in fmap.values():
+                fmap[f_] = cands[0]
+        if len(fmap) != len(fresh_f):
+            fmap = {}
+    if not mapping and not fmap:
+        return
+    if len(set(mapping.values())) != len(mapping):
+        return
+    for x in ast.walk(tree):
+        if isinstance(x, ast.Call) and isinstance(x.func, ast.Name) and x.func.id in ("hasattr", "getattr", "setattr", "delattr") and len(x.args) >= 2 \
+                and isinstance(x.args[1], ast.Constant) and isinstance(x.args[1].value, str) and x.args[1].value in mapping:
+            x.args[1] = ast.copy_location(ast.Constant(value=mapping[x.args[1].value]), x.args[1])
+    for x in ast.walk(tree):
+        if isinstance(x, ast.Attribute) and x.attr in mapping:
+            x.attr = mapping[x.attr]
+        elif isinstance(x, ast.FunctionDef) and x.name in mapping and any(x in c.body for c in tree.body if isinstance(c, ast.ClassDef)):
+            x.name = mapping[x.name]
+        elif isinstance(x, ast.FunctionDef) and x.name in fmap and x in tree.body:
+            x.name = fmap[x.name]
+        elif isinstance(x, ast.Name) and x.id in fmap:
+            x.id = fmap[x.id]
+
+
+# ----------------------------------------------------------------------------------------------- statement <-> expression forms
+def normalise_expression_forms(fn: ast.FunctionDef, ref_fn: dict) -> None:
+    """`return A if c else B`  <->  `if c: return A` / `else: return B`, and `x = []` + `for v in it: x.append(e)` ->
+    `x = [e for v in it]`, chosen so that the function has the form the reference function has."""
+    stmt_keys = set(ref_fn.get("stmt_tests", []))
+    expr_keys = set(ref_fn.get("ifexp_tests", []))
+    for _round in range(4):
+        changed = False
+        for owner, fld, blk in blocks_of(fn):
+            for i, st in enumerate(blk):
+                # conditional-expression return where the reference has an if statement
+                if isinstance(st, ast.Return) and isinstance(st.value, ast.IfExp):
+                    k, nk = _key(st.value.test), _key(negate(st.value.test))
+                    if k not in expr_keys and nk not in expr_keys and (k in stmt_keys or nk in stmt_keys):
+                        ie = st.value
+                        new = ast.If(test=ie.test, body=[ast.Return(value=ie.body)], orelse=[ast.Return(value=ie.orelse)])
+                        blk[i] = ast.copy_location(new, st)
+                        changed = True
+                        break
+                # if statement of two returns where the reference has a conditional expression
+                if isinstance(st, ast.If) and len(st.body) == 1 and isinstance(st.body[0], ast.Return) and st.body[0].value is not None:
+                    k, nk = _key(st.test), _key(negate(st.test))
+                    other = None
+                    if len(st.orelse) == 1 and isinstance(st.orelse[0], ast.Return) and st.orelse[0].value is not None:
+                        other, drop = st.orelse[0].value, 0
+                    elif not st.orelse and i + 1 < len(blk) and isinstance(blk[i + 1], ast.Return) and blk[i + 1].value is not None:
+                        other, drop = blk[i + 1].value, 1
+                    if other is not None and k not in stmt_keys and nk not in stmt_keys and (k in expr_keys or nk in expr_keys):
+                        test, a, b = st.test, st.body[0].value, other
+                        if k not in expr_keys:
+                            test, a, b = negate(test), b, a
+                        blk[i] = ast.copy_location(ast.Return(value=ast.IfExp(test=test, body=a, orelse=b)), st)
+                        if drop:
+                            del blk[i + 1]
+                        changed = True
+                        break
+                # accumulate-by-append loop over a fresh list -> comprehension
+                if isinstance(st, ast.Assign) and len(st.targets) == 1 and isinstance(st.targets[0], ast.Name) and isinstance(st.value, ast.List) and not st.value.elts \
+                        and i + 1 < len(blk) and isinstance(blk[i + 1], ast.For) and not blk[i + 1].orelse and st.targets[0].id not in set(ref_fn.get("locals", ["*"])) \
+                        and "*" not in ref_fn.get("locals", ["*"]):
+                    x = st.targets[0].id
+                    lp = blk[i + 1]
+                    body = lp.body
+                    cond = None
+                    if len(body) == 1 and isinstance(body[0], ast.If) and not body[0].orelse and len(body[0].body) == 1:
+                        cond, body = body[0].test, body[0].body
+                    if len(body) == 1 and isinstance(body[0], ast.Expr) and isinstance(body[0].value, ast.Call) and _u(body[0].value.func) == f"{x}.append" \
+                            and len(body[0].value.args) == 1 and not any(isinstance(n, ast.Name) and n.id == x for n in ast.walk(body[0].value.args[0])) \
+                            and not any(isinstance(n, ast.Name) and n.id == x for n in ast.walk(lp.iter)):
+                        comp = ast.ListComp(elt=body[0].value.args[0], generators=[ast.comprehension(target=lp.target, iter=lp.iter, ifs=[cond] if cond is not None else [], is_async=0)])
+                        blk[i] = ast.copy_location(ast.Assign(targets=[ast.Name(id=x, ctx=ast.Store())], value=comp), st)
+                        del blk[i + 1]
+                        changed = True
+                        break
+            if changed:
+                break
+        if not changed:
+            break
+    ast.fix_missing_locations(fn)
+
+
+def stmt_test_keys_of(fn: ast.FunctionDef) -> List[str]:
+    return [_key(n.test) for n in ast.walk(fn) if isinstance(n, (ast.If, ast.While))]
+
+
+def ifexp_test_keys_of(fn: ast.FunctionDef) -> List[str]:
+    return [_key(n.test) for n in ast.walk(fn) if isinstance(n, ast.IfExp)]
+
+
+# ----------------------------------------------------------------------------------------------- helpers that were inlined away
+class _NoMatch(Exception):
+    pass
+
+
+def _unify(pat: ast.AST, tgt: ast.AST, pvars: Set[str], lvars: Set[str], bind: Dict[str, object]) -> None:
+    """Structural match of a statement/expression of the reference helper against one of the current tree.  Parameters bind to
+    arbitrary expressions, the helper's locals to (renamed) names; everything else must be identical."""
+    if isinstance(pat, ast.Name):
+        if pat.id in pvars and isinstance(pat.ctx, ast.Load):
+            key = "p:" + pat.id
+            txt = _u(tgt)
+            if key in bind:
+                if _u(bind[key]) != txt:
+                    raise _NoMatch()
+            else:
+                bind[key] = tgt
+            return
+        if pat.id in lvars or pat.id in pvars:
+            if not isinstance(tgt, ast.Name) or type(pat.ctx) is not type(tgt.ctx):
+                raise _NoMatch()
+            key = "l:" + pat.id
+            if bind.get(key, tgt.id) != tgt.id:
+                raise _NoMatch()
+            if key not in bind and tgt.id in [v for k, v in bind.items() if k.startswith("l:")]:
+                raise _NoMatch()
+            bind[key] = tgt.id
+            return
+        if not isinstance(tgt, ast.Name) or tgt.id != pat.id:
+            raise _NoMatch()
+        return
+    if type(pat) is not type(tgt):
+        raise _NoMatch()
+    if isinstance(pat, ast.Constant):
+        if type(pat.value) is not type(tgt.value) or pat.value != tgt.value:
+            raise _NoMatch()
+        return
+    for fld, pv in ast.iter_fields(pat):
+        if fld in ("lineno", "col_offset", "end_lineno", "end_col_offset", "ctx", "type_comment"):
+            continue
+        tv = getattr(tgt, fld, None)
+        if isinstance(pv, list):
+            if not isinstance(tv, list) or len(pv) != len(tv):
+                raise _NoMatch()
+            for a, b in zip(pv, tv):
+                if isinstance(a, ast.AST):
+                    _unify(a, b, pvars, lvars, bind)
+                elif a != b:
+                    raise _NoMatch()
+        elif isinstance(pv, ast.AST):
+            if not isinstance(tv, ast.AST):
+                raise _NoMatch()
+            _unify(pv, tv, pvars, lvars, bind)
+        elif pv != tv:
+            raise _NoMatch()
+
+
+def restore_inlined_helpers(tree: ast.Module, ref_mod: dict) -> None:
+    """A function of the reference that no longer exists, whose body (with its parameters replaced by argument expressions and
+    its locals possibly renamed) now stands in other functions of the same scope, is put back: the matched statements become a
+    call again and the definition is re-inserted from the reference.  The inverse of inline-and-delete; by construction the
+    result is equivalent to the tree on disk (the call runs exactly the statements it replaces)."""
+    funcs = ref_mod.get("funcs", {})
+    cur = set()
+
+    def collect(node, prefix):
+        for n in getattr(node, "body", []):
+            if isinstance(n, ast.ClassDef):
+                collect(n, prefix + n.name + ".")
+            elif isinstance(n, ast.FunctionDef):
+                q = prefix + n.name
+                if any(isinstance(d, ast.Attribute) and d.attr == "setter" for d in n.decorator_list):
+                    q += ".setter"
+                cur.add(q)
+                collect(n, q + ".")
+    collect(tree, "")
+    missing = [q for q in funcs if q not in cur and funcs[q].get("src") and not q.endswith(".setter")]
+    for q in missing:
+        parts = q.split(".")
+        hname = parts[-1]
+        if hname.startswith("__") and hname.endswith("__"):
+            continue
+        try:
+            H = ast.parse(funcs[q]["src"]).body[0]
+        except SyntaxError:
+            continue
+        if not isinstance(H, ast.FunctionDef) or any(isinstance(x, (ast.Yield, ast.YieldFrom, ast.Await)) for x in ast.walk(H)):
+            continue
+        deco = [_u(d) for d in H.decorator_list]
+        if deco not in ([], ["staticmethod"]):
+            continue
+        # container and hosts
+        container = tree
+        ok = True
+        for p in parts[:-1]:
+            nxt = next((n for n in container.body if isinstance(n, (ast.ClassDef, ast.FunctionDef)) and n.name == p), None)
+            if nxt is None:
+                ok = False
+                break
+            container = nxt
+        if not ok:
+            continue
+        is_method = isinstance(container, ast.ClassDef) and not deco
+        ps = _params(H)
+        if ps is None:
+            continue
+        if is_method:
+            if not ps or ps[0] != "self":
+                continue
+            ps = ps[1:]
+        body = _strip_doc(H.body)
+        if not body:
+            continue
+        ret = None
+        pat = body
+        if isinstance(body[-1], ast.Return):
+            ret = body[-1].value
+            pat = body[:-1]
+        if any(isinstance(x, ast.Return) for s_ in pat for x in ast.walk(s_)):
+            continue                                  # internal returns cannot stand inline unchanged
+        if not pat and ret is None:
+            continue
+        # second pattern: the helper with its own single-use temporaries folded in (an inliner often does that on the way)
+        alt_pat = None
+        try:
+            from .loader import _inline_fresh_temps
+            H2 = copy.deepcopy(H)
+            _inline_fresh_temps(H2, set())
+            b2_ = _strip_doc(H2.body)
+            if b2_ and _u(ast.Module(body=b2_, type_ignores=[])) != _u(ast.Module(body=body, type_ignores=[])):
+                r2_ = b2_[-1].value if isinstance(b2_[-1], ast.Return) else None
+                p2_ = b2_[:-1] if isinstance(b2_[-1], ast.Return) else b2_
+                if (ret is None) == (r2_ is None) and p2_:
+                    alt_pat = (p2_, r2_, _assigned_names(H2) - set(_params(H2) or []))
+        except Exception:  # noqa
+            alt_pat = None
+        pvars = set(ps)
+        lvars = _assigned_names(H) - set(_params(H) or [])
+        if isinstance(container, ast.ClassDef):
+            hosts = [n for n in container.body if isinstance(n, ast.FunctionDef)]
+        elif isinstance(container, ast.FunctionDef):
+            hosts = [container] + [n for n in container.body if isinstance(n, ast.FunctionDef)]
+        else:
+            hosts = [n for n in tree.body if isinstance(n, ast.FunctionDef)] + [m for c in tree.body if isinstance(c, ast.ClassDef) for m in c.body if isinstance(m, ast.FunctionDef)]
+        n_sites = 0
+        variants = [(pat, ret, lvars)] + ([alt_pat] if alt_pat else [])
+        for pat, ret, lvars in variants:
+            if n_sites:
+                break
+            for host in hosts:
+                progress = True
+                while progress:
+                    progress = False
+                    for owner, fld, blk in blocks_of(host):
+                        if isinstance(container, ast.FunctionDef) and host is container and owner is host and fld == "body":
+                            pass
+                        for i in range(len(blk)):
+                            if i + len(pat) > len(blk):
+                                break
+                            bind: Dict[str, object] = {}
+                            try:
+                                for a, b in zip(pat, blk[i:i + len(pat)]):
+                                    _unify(a, b, pvars, lvars, bind)
+                            except _NoMatch:
+                                continue
+                            consumed = len(pat)
+                            new_stmt = None
+
+                            def call_of():
+                                args = []
+                                for p in ps:
+                                    if "p:" + p in bind:
+                                        args.append(copy.deepcopy(bind["p:" + p]))
+                                    elif "l:" + p in bind:
+                                        args.append(ast.Name(id=bind["l:" + p], ctx=ast.Load()))
+                                    else:
+                                        return None
+                                if isinstance(container, ast.ClassDef):
+                                    fn_ = ast.Attribute(value=ast.Name(id="self" if is_method else container.name, ctx=ast.Load()), attr=hname, ctx=ast.Load())
+                                else:
+                                    fn_ = ast.Name(id=hname, ctx=ast.Load())
+                                return ast.Call(func=fn_, args=args, keywords=[])
+                            if ret is None:
+                                c = call_of()
+                                if c is None:
+                                    continue
+                                new_stmt = ast.Expr(value=c)
+                            else:
+                                nxt = blk[i + consumed] if i + consumed < len(blk) else None
+                                matched_value = False
+                                if nxt is not None and isinstance(nxt, (ast.Assign, ast.Return, ast.Expr, ast.AugAssign)) and getattr(nxt, "value", None) is not None:
+                                    b2 = dict(bind)
+                                    try:
+                                        _unify(ret, nxt.value, pvars, lvars, b2)
+                                        bind = b2
+                                        matched_value = True
+                                    except _NoMatch:
+                                        matched_value = False
+                                c = call_of()
+                                if c is None:
+                                    continue
+                                if matched_value:
+                                    new_stmt = copy.copy(nxt)
+                                    new_stmt.value = c
+                                    consumed += 1
+                                elif isinstance(ret, ast.Name) and ("l:" + ret.id) in bind and pat:
+                                    new_stmt = ast.Assign(targets=[ast.Name(id=bind["l:" + ret.id], ctx=ast.Store())], value=c)
+                                else:
+                                    continue
+                            # locals of the matched segment must not be needed outside it (except the returned one)
+                            returned = bind.get("l:" + ret.id) if isinstance(ret, ast.Name) else None
+                            seg = blk[i:i + consumed]
+                            seg_nodes = {id(x) for s_ in seg for x in ast.walk(s_)}
+                            escaped = False
+                            for k, v in bind.items():
+                                if k.startswith("l:") and v != returned and k[2:] not in pvars:
+                                    if any(isinstance(x, ast.Name) and x.id == v and isinstance(x.ctx, ast.Load) and id(x) not in seg_nodes for x in ast.walk(host)):
+                                        escaped = True
+                            if escaped:
+                                continue
+                            ast.copy_location(new_stmt, blk[i])
+                            blk[i:i + consumed] = [new_stmt]
+                            n_sites += 1
+                            progress = True
+                            break
+                        if progress:
+                            break
+        if n_sites:
+            if isinstance(container, ast.FunctionDef):
+                at = 1 if container.body and isinstance(container.body[0], ast.Expr) and isinstance(container.body[0].value, ast.Constant) else 0
+                container.body.insert(at, H)
+            else:
+                container.body.append(H)
+    ast.fix_missing_locations(tree)
